@@ -173,7 +173,7 @@ def cmd_verify_refactor(src, name):
         for f in ("patch.diff", "README.md"):
             if os.path.exists(os.path.join(src, f)):
                 if os.path.abspath(src) != os.path.abspath(d):
-                shutil.copy(os.path.join(src, f), os.path.join(d, f))
+                    shutil.copy(os.path.join(src, f), os.path.join(d, f))
         meta["what_was_run"] = "git apply on a worktree of /repo HEAD; cmake -DUNIT_TESTING=ON + ninja; ctest (failed: %s)" % sorted(failed)
         json.dump(meta, open(os.path.join(d, "meta.json"), "w"), indent=1)
         print("CONFIRMED refactoring stored:", d)
